@@ -372,6 +372,37 @@ pub fn check_multi(files: &[File], dj: &str, acc: &mut Acc) {
             }
         }
     }
+    // the same rules files and document through the --payload entry point: exit code and structured report
+    let payload = json!({"rules": texts, "data": [dj]}).to_string();
+    for (fmt, extra) in [("payload-plain", sv(&["-S", "all"])), ("payload-json", sv(&["--structured", "-o", "json", "-S", "none"]))] {
+        let mut a = sv(&["validate", "--payload"]);
+        a.extend(extra);
+        let o = cli_inproc(&a, &payload);
+        acc.traces += 1;
+        acc.nontrivial += 1;
+        if o.panic.is_some() {
+            viols.push((format!("multi-panic:{}", fmt), format!("{:?}", o.panic), a.clone()));
+            continue;
+        }
+        if o.code != Ok(want_exit) {
+            viols.push((format!("multi-exit-code:{}", fmt), format!("exit {:?}, rules evaluate to {:?}", o.code, all_rules), a.clone()));
+        }
+        if fmt == "payload-json" {
+            match parse_structured_json(&o.out) {
+                Err(e) => viols.push((format!("multi-not-well-formed:{}", fmt), e, a.clone())),
+                Ok(reps) => {
+                    for d in &reps {
+                        let got: Vec<(String, St)> = partition_of(d).into_iter().map(|(n, s)| (bare(&n), s)).collect();
+                        let mut got = got;
+                        got.sort();
+                        if got != want_sorted || d.status != Some(fold) {
+                            viols.push((format!("multi-report:{}", fmt), format!("report {:?} status {:?}; rules evaluate to {:?}, fold {:?}", got, d.status, want_sorted, fold), a.clone()));
+                        }
+                    }
+                }
+            }
+        }
+    }
     for (sig, what, argv) in viols {
         acc.violate(&sig, format!("{} | rules {:?} data {}", what, texts, dj), json!({"kind":"cli","argv":argv,"stdin":"","files":{"rules":texts,"data":dj},"expected":format!("{:?}", want_sorted),"observed":what}));
     }
